@@ -71,6 +71,8 @@ type vHub struct {
 	sessionOk bool
 	msgId     int
 	clientIds map[*Client]int
+	// "remove" requests for virtual sessions the fake backend received in the current step: (room, public id)
+	told [][2]string
 }
 
 func vHubBackendUrl(h *vHub, b int) string { return fmt.Sprintf("%s/b%d", h.server.URL, b) }
@@ -200,6 +202,11 @@ func (h *vHub) backendHandler(b int, w http.ResponseWriter, req *http.Request) {
 		if !ok && request.Session != nil && request.Session.Action == "add" {
 			http.Error(w, "backend down", http.StatusInternalServerError)
 			return
+		}
+		if request.Session != nil && request.Session.Action == "remove" {
+			h.mu.Lock()
+			h.told = append(h.told, [2]string{request.Session.RoomId, string(request.Session.SessionId)})
+			h.mu.Unlock()
 		}
 		response = &BackendClientResponse{Type: "session", Session: &BackendClientSessionResponse{Version: BackendVersion, RoomId: request.Session.RoomId}}
 	default:
